@@ -96,7 +96,11 @@ def saveM2M (o : Nat) (s : St) : St :=
 /-- SaveBeforeAssociations, belongs-to: target `ON CONFLICT DO NOTHING`, setupReferences, `UPDATE owner SET fk` -/
 def saveBt (o : Nat) (s : St) : St :=
   match s.mem o with
-  | [] => s
+  | [] =>
+    -- no in-memory record: nothing to upsert, but `Updates(owner)` with `Select(<relation>, <fk field>)` still writes the
+    -- owner's IN-MEMORY foreign key (`UPDATE owners SET fk = ? WHERE id = ?`)
+    { s with links := s.links.filter (fun p => p.1 ≠ o) ++ (if s.memFk o = 0 then [] else [(o, s.memFk o)]),
+             log := s.log ++ ["UPDATE O"] }
   | v :: _ =>
     let id := if v = 0 then s.next else v
     { s with mem := upd s.mem o [id], memFk := upd s.memFk o id,
